@@ -3,6 +3,7 @@ package vx
 import (
 	"reflect"
 	"runtime"
+	"sort"
 	"unsafe"
 )
 
@@ -511,4 +512,15 @@ func SelSend[T any](ch chan<- T, v T) {
 func (s *Sched) afterRendezvous() {
 	s.point(&Op{Kind: "after-rendezvous"})
 	s.event(0x210, nil, true)
+}
+
+// SortedKeys replaces the iteration order of `range` over a map with string keys in instrumented code: Go's
+// order is random, which would make statement-granularity schedules irreproducible.
+func SortedKeys[M ~map[K]V, K ~string, V any](m M) []K {
+	ks := make([]K, 0, len(m))
+	for k := range m {
+		ks = append(ks, k)
+	}
+	sort.Slice(ks, func(i, j int) bool { return ks[i] < ks[j] })
+	return ks
 }
